@@ -112,12 +112,18 @@ KINDS = ["dict", "pairs", "uniform", "det", "softmax", "table"]
 DYADIC = ["0", "1/8", "1/4", "3/8", "1/2", "5/8", "3/4", "1", "3/2", "2", "1/16", "3"]
 
 
+NEAR_ONE = [F(1, 2**17), F(1, 2**18), F(1, 2**19), F(1, 2**20), F(1, 10**6), F(8, 10**6)]
+
+
 def gen_weights(rng, n):
     r = rng.random()
-    if r < .3:      # normalised, k/8 with zeros
+    if r < .45:     # normalised, k/8 with zeros
         cuts = sorted(rng.randint(0, 8) for _ in range(n - 1))
-        parts = [b - a for a, b in zip([0] + cuts, cuts + [8])]
-        return [str(F(p, 8)) for p in parts]
+        parts = [F(b - a, 8) for a, b in zip([0] + cuts, cuts + [8])]
+        if r < .17:  # NEARLY normalised: total 1 +- 2^-17..2^-20 / 1e-6 / 8e-6 (inside is_normalized's band)
+            j = rng.choice([k for k in range(n) if parts[k] > 0])
+            parts[j] += rng.choice(NEAR_ONE) * rng.choice([1, -1])
+        return [str(p) for p in parts]
     ws = [rng.choice(DYADIC) for _ in range(n)]
     for i in range(n):
         if rng.random() < .2:
@@ -144,9 +150,23 @@ def gen_dist(rng, kind=None, nmax=5):
         spec["weights"] = gen_weights(rng, n)
     if kind == "softmax":
         off = rng.choice([0, 0, 0, 100, -1000, 700])
-        spec["weights"] = [str(F(rng.randint(-12, 12), 4) + off) for _ in range(n)]
-        if rng.random() < .3:
-            spec["weights"] = [spec["weights"][0]] * n          # ties
+        sc = [F(rng.randint(-12, 12), 4) + off for _ in range(n)]
+        r = rng.random()
+        if r < .25:
+            sc = [sc[0]] * n                                      # ties
+        elif r < .6 and n >= 2:
+            # wide spread, the largest score NOT first, often two (tied or nearly tied) large scores
+            spread = rng.choice([100, 700, 709, 709, 800, 1500])
+            sc[0] = F(rng.randint(-12, 12), 4) + off
+            top = sc[0] + spread + F(rng.randint(0, 3), 4)
+            big = rng.sample(range(1, n), min(n - 1, rng.choice([1, 2, 2])))
+            for j in range(1, n):
+                sc[j] = top - (F(rng.randint(0, 2), 4) if j in big[1:] else 0) if j in big \
+                    else sc[0] + F(rng.randint(0, 40), 4)
+        spec["weights"] = [str(x) for x in sc]
+        if distinct and n >= 2 and rng.random() < .12:            # -inf scores (accepted by the constructor)
+            for j in rng.sample(range(n), rng.randint(1, n - 1)):
+                spec["weights"][j] = "-inf"
     if kind == "uniform":
         spec["seq"] = rng.choice(["list", "tuple"])
     if kind == "table":
@@ -466,19 +486,36 @@ def rlit(x):
 
 
 def softmax_goals(spec, items):
-    """one Goal per entry of msdm's SoftmaxDistribution: |prob (softmax (dict scores)) e - float| <= 1e-13"""
+    """one Goal per entry of msdm's SoftmaxDistribution: |prob (softmax (dict scores)) e - float| <= 1e-13
+    (entries that underflow are thereby compared with 0 absolutely).  A score of -inf is an event of
+    probability exactly 0 that does not take part in the normaliser: the model's scores are the finite
+    ones (such specs have pairwise distinct events).  Returns (goals, problems)."""
     ids = spec_ids(spec)
-    scores = coqlist("(%s, %s)" % (nat(i), rlit(w)) for i, w in zip(ids, spec["weights"]))
+    problems = []
+    neg_inf = {i for i, w in zip(ids, spec["weights"]) if w == "-inf"}
+    fin = [(i, w) for i, w in zip(ids, spec["weights"]) if w != "-inf"]
+    scores = coqlist("(%s, %s)" % (nat(i), rlit(w)) for i, w in fin)
     # dict(zip(events, scores)): the LAST score of a key counts
     last = {}
-    for i, w in zip(ids, spec["weights"]):
+    for i, w in fin:
         last[i] = F(w)
     m = max(last.values())
     goals = []
+    tot = F(0)
     for e, p in items:
+        if isinstance(p, str):
+            problems.append("non-finite probability %s" % p)
+            continue
+        tot += vlib.frac(p)
+        if eid(e) in neg_inf:
+            if vlib.frac(p) != 0:
+                problems.append("an event of score -inf has probability %s" % float(vlib.frac(p)))
+            continue
         goals.append("Goal Rabs (@prob R NumR nat Nat.eqb (softmax (of_pairs Nat.eqb %s)) %s - %s) <= 1/10^13.\n"
                      "Proof. sm %s. Qed.\n" % (scores, nat(eid(e)), rlit(p), rlit(m)))
-    return goals
+    if not problems and abs(tot - 1) > TOL:
+        problems.append("softmax is not normalised: total %s" % float(tot))
+    return goals, problems
 
 
 def run_softmax(ctx, jobs):
@@ -572,7 +609,8 @@ def run(ctx):
     cnt = {"out_of_quantifier": 0, "table_prob_nonmember_tuple_probes": 0,
            "table_prob_nonmember_tuple_anomalies": 0, "boundary_draws": 0, "float_boundary_ambiguous": 0,
            "scripted_draws": 0, "seeded_draws": 0, "single_support_shortcuts": 0,
-           "colliding_key_dists": 0, "zero_entry_dists": 0, "unnormalised_dists": 0, "softmax_goals": 0}
+           "colliding_key_dists": 0, "zero_entry_dists": 0, "unnormalised_dists": 0, "softmax_goals": 0,
+           "nearly_normalised_dists": 0, "softmax_wide_spread_max_not_first": 0, "softmax_neg_inf_scores": 0}
     kinds_count = {k: 0 for k in KINDS}
     pair_count = {}
     terms, meta, sm_jobs = [], [], []
@@ -582,6 +620,18 @@ def run(ctx):
         d = {"case": cases[i]}
         d.update(extra)
         ctx.violation(sig, d, found=found)
+
+    def add_softmax(i, nm, sp, items):
+        goals, probs = softmax_goals(sp, items)
+        fin = [F(w) for w in sp["weights"] if w != "-inf"]
+        if max(fin) - fin[0] >= 100 or (sp["weights"][0] == "-inf"):
+            cnt["softmax_wide_spread_max_not_first"] += 1
+        if any(w == "-inf" for w in sp["weights"]):
+            cnt["softmax_neg_inf_scores"] += 1
+        if probs:
+            viol("C11:softmax:" + probs[0].split(":")[0][:60], i, {"which": nm, "spec": sp, "problems": probs, "items": items}, True)
+        if goals:
+            sm_jobs.append(((i, nm), goals))
 
     for i, (case, res) in enumerate(zip(cases, impl)):
         if "error" in res:
@@ -609,6 +659,12 @@ def run(ctx):
                 viol("C11:construct:raises:" + kerr[0].split(":")[0], i,
                      {"error": kerr[0], "what": "constructing a kernel distribution raises"}, True)
                 continue
+            allitems = [("d1", res["d1"]["items"]), ("d2", res["d2"]["items"])] + [("kern", v) for _, v in res["kern_items"]]
+            nonfin = [(nm, it) for nm, it in allitems if any(isinstance(p, str) for _, p in it)]
+            if nonfin:
+                viol("C11:items:non-finite-probability", i,
+                     {"which": nonfin[0][0], "items": nonfin[0][1], "what": "a constructed distribution has a nan/inf probability"}, True)
+                continue
             terms.append(case_term(case, res, draws))
             meta.append(i)
         except KeyError as ex:
@@ -626,13 +682,17 @@ def run(ctx):
                     cnt["zero_entry_dists"] += 1
                 if sum(F(w) for w in sp["weights"]) != 1:
                     cnt["unnormalised_dists"] += 1
+                if 0 < abs(sum(F(w) for w in sp["weights"]) - 1) <= F(1, 10**5):
+                    cnt["nearly_normalised_dists"] += 1
             if sp["kind"] == "softmax" and isinstance(res[nm]["items"], list):
-                sm_jobs.append(((i, nm), softmax_goals(sp, res[nm]["items"])))
+                add_softmax(i, nm, sp, res[nm]["items"])
         for k, sp in case["kern"]:
             kinds_count[sp["kind"]] += 1
+            if sp["kind"] in ("dict", "pairs", "table") and 0 < abs(sum(F(w) for w in sp["weights"]) - 1) <= F(1, 10**5):
+                cnt["nearly_normalised_dists"] += 1
             it = dict((eid(a), b) for a, b in res["kern_items"]).get(eid(k))
             if sp["kind"] == "softmax" and isinstance(it, list):
-                sm_jobs.append(((i, "kern"), softmax_goals(sp, it)))
+                add_softmax(i, "kern", sp, it)
         pk = case["d1"]["kind"] + "x" + case["d2"]["kind"]
         pair_count[pk] = pair_count.get(pk, 0) + 1
 
@@ -695,7 +755,7 @@ def run(ctx):
                     problems[nm + ".prob"] = "prob(%r): msdm %s model %s" % (UNIVERSE[e_id_pos], pv, pm)
             if isinstance(r["mass"], dict) or isinstance(r["mass"], str) or not close(vlib.frac(r["mass"]), mass_m):
                 problems[nm + ".mass"] = "sum(values): msdm %s model %s" % (r["mass"], mass_m)
-            elif abs(mass_m - 1) > F(1, 1000) or abs(mass_m - 1) < F(1, 10**9):   # away from the isclose edge
+            elif abs(abs(mass_m - 1) - max(F(1, 10**5) * max(abs(mass_m), 1), F(1, 10**8))) > F(1, 10**9):   # off the isclose edge
                 if r["is_normalized"] != isn_m:
                     problems[nm + ".is_normalized"] = "is_normalized: msdm %s model %s" % (r["is_normalized"], isn_m)
             nops += 5
@@ -737,7 +797,8 @@ def run(ctx):
         nops += 4
 
         # ---- sampling ----
-        floaty = case["d1"]["kind"] == "softmax"
+        floaty = case["d1"]["kind"] == "softmax" or any(
+            F(w).denominator & (F(w).denominator - 1) for w in case["d1"].get("weights", []))
         nscript = len(case["script"])
         cum = []
         acc = F(0)
@@ -804,7 +865,8 @@ def run(ctx):
         "rule": "cases = (d1, d2, projection, kernel, likelihood, real function, scalars, draws); d1, d2 and every kernel value drawn "
                 "from the kinds dict / from_pairs / uniform / deterministic / softmax / table (direct or ProbabilityTable row), 1..5 entries "
                 "over a universe of %d Python values forming %d events (1 == 1.0 == True, (0,1) == (False,1.0), frozensets, tuples, None, str), "
-                "colliding keys on purpose, weights dyadic with zero entries, normalised / unnormalised / (rarely) zero mass, likelihoods "
+                "colliding keys on purpose, weights dyadic with zero entries, normalised / NEARLY normalised (total 1 +- 2^-17..2^-20, 1e-6, 8e-6) / unnormalised / (rarely) zero mass, "
+                "softmax scores with offsets, ties, spreads 100/700/709/800/1500 with the largest score not first, -inf scores, likelihoods "
                 "numeric with zeros or boolean, scripted draws incl. u = 0, 1-2^-53 and exact cumulative boundaries, 6 seeded draws; "
                 "distinct = structural hash of (d1, d2, functions); non-trivial = every generated case (>= 1 entry, all operations run)" % (len(UNIVERSE), NID),
         "samples": [{"case": {k: v for k, v in cases[0].items() if k != "universe"}, "impl": impl[0]}] if cases else [],
